@@ -168,3 +168,6 @@ def run(ctx):
     from .c04 import subdomain_labels, SPEC as _SPEC4
     ctx.rule("R7", "irrelevant sub-domain labels are matched wherever they stand in the host (fr.www.lemonde.fr loses both labels): pinned label list x {leading, inner} positions, regex-language inclusion")
     subdomain_labels(ctx, "R7", _json2.load(open(_SPEC4)))
+    from .c04 import redirect_spellings
+    ctx.rule("R8", "any port is ignored, also on the cache hosts redirection inference resolves: REDIRECTION_DOMAINS_RE accepts a port of 1-5 digits (regex-language inclusion)")
+    redirect_spellings(ctx, "R8")
